@@ -95,6 +95,7 @@ class DecodeState:
             # an excessive value for the length key)
             odxraise(f"Integer objects must not exhibit more than 64 bits (is: {bit_length})",
                      DecodeError)
+            bit_length = 64
 
         byte_length = (bit_length + self.cursor_bit_position + 7) // 8
         if self.cursor_byte_position + byte_length > len(self.coded_message):
